@@ -200,3 +200,258 @@ def c20_oracle(steps):
                 out.append((s.i, "non-canonical: counterparty %r for protocol %s is %s but canonical=%s" % (c, f[2], s.impl_raw, canonical)))
     # round trip ccid -> parseccid is checked through dedicated paired lines (the id text is fed back)
     return out
+
+
+# =====================================================================================================
+# helpers shared by the application-level properties
+import json as _json
+
+from proto import ORB, ORB_BYTES, DUST_BYTES, AUTHORITY, b32, addr, cctp_fwd, int_fwd, hyp_fwd, fee_action, orb_pkt, pkt_line, ftpd, memo, msg_line, b64
+from gen import U, USERS, DENOMS, CHANNELS, SRC_CHANNELS, PROTO_NAMES, ACTION_NAMES, CCTP_DOMAINS
+
+ORBHEX = ORB_BYTES.hex()
+DUSTHEX = DUST_BYTES.hex()
+
+
+def parse_delta(s):
+    """'addr/denomhex:+5,…' -> {(addr, denom str): int}"""
+    d = {}
+    if not s or s == "-":
+        return d
+    for e in s.split(","):
+        k, v = e.rsplit(":", 1)
+        a, dn = k.split("/", 1)
+        d[(a, unhx(dn).decode("utf-8", "replace"))] = int(v)
+    return d
+
+
+def parse_sup(s):
+    d = {}
+    if not s or s == "-":
+        return d
+    for e in s.split(","):
+        k, v = e.rsplit(":", 1)
+        d[unhx(k).decode("utf-8", "replace")] = int(v)
+    return d
+
+
+def packet_of(line):
+    """decode a recv-like line -> dict(src_port, src_chan, dst_port, dst_chan, data(bytes), ftpd(dict|None), payload(dict|None))"""
+    f = line.split(" ")
+    p = {"src_port": unhx(f[1]).decode("utf-8", "replace"), "src_chan": unhx(f[2]).decode("utf-8", "replace"),
+         "dst_port": unhx(f[3]).decode("utf-8", "replace"), "dst_chan": unhx(f[4]).decode("utf-8", "replace"), "data": unhx(f[5])}
+    p["ftpd"] = None
+    p["payload"] = None
+    try:
+        d = _json.loads(p["data"].decode("utf-8"))
+        if isinstance(d, dict):
+            p["ftpd"] = d
+            try:
+                m = _json.loads(d.get("memo", ""))
+                if isinstance(m, dict) and isinstance(m.get("orbiter"), dict):
+                    p["payload"] = m["orbiter"]
+            except Exception:
+                pass
+    except Exception:
+        pass
+    return p
+
+
+def receiver_is_orbiter(p):
+    if not p["ftpd"] or not isinstance(p["ftpd"].get("receiver"), str):
+        return False
+    a = decode_addr(p["ftpd"]["receiver"])
+    return a == ORB_BYTES
+
+
+RECV_OPS = ("recv", "recvh")
+
+
+class Ledger:
+    """Python-side running view of balances, built only from implementation observations."""
+
+    def __init__(self):
+        self.orb = {}
+
+    def apply(self, step):
+        if step.op == "deposit" and step.impl_raw == "ok":
+            f = step.line.split(" ")
+            if f[1] == ORBHEX:
+                d = unhx(f[2]).decode()
+                self.orb[d] = self.orb.get(d, 0) + int(f[3])
+        if step.op in RECV_OPS:
+            for (a, dn), v in parse_delta(step.impl.get("bal")).items():
+                if a == ORBHEX:
+                    self.orb[dn] = self.orb.get(dn, 0) + v
+
+
+def c01_oracle(steps):
+    out = []
+    led = Ledger()
+    for s in steps:
+        before = dict(led.orb)
+        led.apply(s)
+        if s.op not in RECV_OPS:
+            continue
+        ack = s.impl.get("ack")
+        if ack != "ok":
+            continue
+        delta = parse_delta(s.impl.get("bal"))
+        for (a, dn), v in delta.items():
+            if a == ORBHEX and v > 0:
+                out.append((s.i, "stranded: success acknowledgement and the orbiter balance of %s grew by %d" % (dn, v)))
+        p = packet_of(s.line)
+        if receiver_is_orbiter(p):
+            # the whole delivered coin has left: nothing of the delivered denom stays
+            dn = p["ftpd"].get("denom", "")
+            pre = p["src_port"] + "/" + p["src_chan"] + "/"
+            if dn.startswith(pre):
+                dn = dn[len(pre):]
+            if led.orb.get(dn, 0) != 0:
+                out.append((s.i, "stranded: success acknowledgement but %d %s remain on the orbiter account" % (led.orb.get(dn, 0), dn)))
+    return out
+
+
+def c14_oracle(steps):
+    out = []
+    for s in steps:
+        if s.op in RECV_OPS and s.impl.get("ack") == "panic":
+            # attribution rule (DESIGN.md C14): a panic raised inside the wrapped ICS-20 application for a packet the
+            # middleware passed on unchanged is inherited from ibc-go
+            if s.impl.get("pattr") == "app" and not receiver_is_orbiter(packet_of(s.line)):
+                continue
+            out.append((s.i, "panic: receive path panicked (attributed to %s)" % s.impl.get("pattr")))
+        if s.op in ("msg", "query") and s.impl.get("res") == "panic":
+            out.append((s.i, "panic: %s panicked" % s.op))
+        if s.op == "pure" and s.impl_raw.startswith("panic"):
+            out.append((s.i, "panic: parser entry point panicked"))
+    return out
+
+
+def rollback_oracle(steps):
+    """an error acknowledgement commits nothing (C03)"""
+    out = []
+    prev_st = None
+    for s in steps:
+        if s.op in RECV_OPS:
+            if s.impl.get("ack") in ("err", "panic"):
+                if s.impl.get("bal") != "-" or s.impl.get("sup") != "-":
+                    out.append((s.i, "partial: error acknowledgement but balances changed: %s" % s.impl.get("bal", "")[:200]))
+                if prev_st is not None and s.impl.get("st") != prev_st:
+                    out.append((s.i, "partial: error acknowledgement but orbiter state changed"))
+        if "st" in s.impl:
+            prev_st = s.impl["st"]
+    return out
+
+
+def history_stream(name, seed_tag, tier, seed, n_quick, n_thorough, fields, oracle, n_hist_quick=3, n_hist_thorough=12, **kw):
+    out = []
+    nh = n_hist_thorough if tier == "thorough" else n_hist_quick
+    n = n_thorough if tier == "thorough" else n_quick
+    for h in range(nh):
+        r = Rng(seed * 100000 + seed_tag * 100 + h)
+        lines, toks = scen.base_setup()
+        lines += scen.tuned_history(r, n, toks, **kw)
+        out.append(Stream("%s-%d" % (name, h), lines, fields=fields, oracle=oracle))
+    return out
+
+
+# ----------------------------------------------------------------------------------------------- C01
+
+def c01_targeted(r):
+    """receiver grid x routes x prior deposits x pause states."""
+    lines, toks = scen.base_setup()
+    recvs = [ORB, ORB.upper(), ORB[:8] + ORB[8:].upper(), "cosmos" + ORB[5:], b32(DUST_BYTES), U[0], b32(bytes(20)), ORB + " ", "", "garbage"]
+    tok = toks[0][0]
+    routes = [cctp_fwd(domain=0), int_fwd(U[1]), int_fwd(ORB), int_fwd(ORB.upper()), hyp_fwd(tok, domain=1), int_fwd(b32(DUST_BYTES)),
+              cctp_fwd(domain=0, mint=b"\x00" * 32), cctp_fwd(domain=9)]
+    feesets = [None, [fee_action([(U[2], "b", 100)])], [fee_action([(ORB, "b", 100)])], [fee_action([(ORB, "a", 5), (U[3], "a", 5)])], [fee_action([])]]
+    for rc in recvs:
+        for rt in routes:
+            for fs in (feesets if rc == ORB else feesets[:2]):
+                if r.chance(1, 3):
+                    lines.append("deposit %s %s %d" % (hx(ORB_BYTES), hx("uusdc"), r.range(1, 999)))
+                lines.append(orb_pkt("recv", r.choice([1000, 10 ** 6, 7]), rt, fs, receiver=rc))
+    # plain transfers to the orbiter account with every kind of memo
+    for m in ["", "{}", "null", "{\"orbiter\":null}", "{\"orbiter\":{}}", "[]", "x", "{\"forward\":{}}", "{\"orbiter\":{\"forwarding\":null}}"]:
+        lines.append(pkt_line("recv", ftpd("transfer/channel-7/uusdc", 1000, ORB, m)))
+        lines.append(pkt_line("recv", ftpd("uatom", 1000, ORB, m)))
+        lines.append(pkt_line("recv", ftpd("transfer/channel-7/uusdc", 1000, ORB.upper(), m)))
+    return lines
+
+
+@prop
+class C01(Base):
+    id = "C01"
+    assumptions = ["IBC core commits the cached state iff the acknowledgement is a success (emulated by the harness as ibc-go's RecvPacket does)",
+                   "bank / ICS-20 / bridge contracts of DESIGN.md §3.6"]
+
+    def streams(self, tier, seed):
+        f = {"recv": ["ack", "bal"], "recvh": ["ack", "bal"]}
+        sts = [Stream("S3-receiver-grid", c01_targeted(Rng(seed * 1000 + 1)), fields=f, oracle=c01_oracle)]
+        sts += history_stream("S3-history", 1, tier, seed, 150, 600, f, c01_oracle)
+        return sts
+
+
+# ----------------------------------------------------------------------------------------------- C14 / C15
+
+def c14_packets(r, toks, per_shape):
+    """mutated payloads through the whole stack (to the orbiter address), extreme attribute values, raw bytes"""
+    lines = []
+    shapes = scen.payload_shapes(toks)
+    for doc in shapes:
+        ms = scen.mutations(doc, r, per_shape)
+        for m in ms:
+            denom = "uusdc"
+            lines.append(pkt_line("recv", ftpd("transfer/channel-7/" + denom, r.choice([1000, 10 ** 6]), ORB, m)))
+    for m in scen.EXTRA_MEMOS:
+        lines.append(pkt_line("recv", ftpd("transfer/channel-7/uusdc", 1000, ORB, m)))
+    # extreme packet fields
+    good = memo(int_fwd(U[1]))
+    for amt in ["0", "-1", "+5", "007", "0x10", "1_0", "", "x", str(2 ** 256 - 1), str(2 ** 256), "1e3", " 1", "1.0"]:
+        lines.append(pkt_line("recv", ftpd("transfer/channel-7/uusdc", amt, ORB, good)))
+    for dn in ["transfer/channel-7/x", "transfer/channel-7/ab", "transfer/channel-7/1abc", "transfer/channel-7/", "transfer/channel-7/a b c", "transfer/channel-7/" + "a" * 129,
+               "transfer/channel-7/transfer/channel-3/uusdc", "uusdc", "", "/", "transfer/channel-7/uusdc/", "transfer/channel-7/ibc/ABC"]:
+        lines.append(pkt_line("recv", ftpd(dn, 1000, ORB, good)))
+        lines.append(pkt_line("recv", ftpd(dn, 1000, U[0], "")))
+    for sp, sc, dp, dc in [("", "channel-7", "transfer", "channel-0"), ("transfer", "", "transfer", "channel-0"), ("transfer", "channel-7", "transfer", "chan"),
+                           ("transfer", "channel-7", "transfer", ""), ("transfer", "channel-7", "", "channel-0"), ("transfer", "channel-7", "transfer", "channel-18446744073709551616"),
+                           ("tr ansfer", "channel-7", "transfer", "channel-0")]:
+        lines.append(pkt_line("recv", ftpd(sp + "/" + sc + "/uusdc", 1000, ORB, good), src_port=sp, src_chan=sc, dst_port=dp, dst_chan=dc))
+    # raw bytes as packet data
+    for b in scen.random_bytes_memos(r, 60):
+        lines.append(pkt_line("recv", b))
+    for b in [b"", b"null", b"[]", b"{}", b"{\"receiver\":\"" + ORB.encode() + b"\"}", b"{\"receiver\":\"" + ORB.encode() + b"\",\"memo\":\"{}\"}",
+              b"{\"denom\":1}", b"{\"denom\":null,\"receiver\":\"" + ORB.encode() + b"\"}", b"{\"receiver\":\"" + ORB.encode() + b"\"} trailing", b"{\"extra\":1,\"receiver\":\"" + ORB.encode() + b"\"}",
+              b"{\"Receiver\":\"" + ORB.encode() + b"\"}"]:
+        lines.append(pkt_line("recv", b))
+    # hyperlane extreme attribute values
+    tok = toks[0][0]
+    for rec in [b"", b"\x01" * 31, b"\x01" * 33, b"\x01" * 32]:
+        for fee in [None, ("uusdc", -1), ("x", 5), ("", 5), ("uusdc", 0), ("uusdc", 2 ** 256 - 1)]:
+            for gas in [None, -1, 0, 2 ** 256 - 1]:
+                lines.append(orb_pkt("recv", 1000, hyp_fwd(tok, domain=1, recipient=rec, gas=gas, fee=fee)))
+    for t in [b"", b"\x01" * 31, b"\x02" * 32]:
+        lines.append(orb_pkt("recv", 1000, hyp_fwd(t, domain=1)))
+    # fee extremes end to end
+    lines.append(orb_pkt("recv", 2 ** 256 - 1, int_fwd(U[1]), [fee_action([(U[0], "a", 2 ** 255), (U[2], "a", 2 ** 255)])], denom="uother"))
+    lines.append(orb_pkt("recv", 10 ** 30, int_fwd(U[1]), [fee_action([(U[0], "b", 10000), (U[2], "b", 10000)])], denom="uother"))
+    return lines
+
+
+@prop
+class C14(Base):
+    id = "C14"
+    assumptions = ["panics inside external modules on requests the orbiter validated, stack exhaustion and out-of-memory cannot be exhibited by the model",
+                   "a panic raised below the wrapped application for a packet the middleware passed on unchanged is attributed to ibc-go, not to the orbiter"]
+
+    def streams(self, tier, seed):
+        r = Rng(seed * 1000 + 14)
+        lines, toks = scen.base_setup()
+        per = 400 if tier == "thorough" else 90
+        s1 = scen.parse_lines_for(scen.payload_shapes(toks), r.fork(1), per * 2) + ["pure parse " + hx(m) for m in scen.EXTRA_MEMOS]
+        s1 += ["pure parse " + hx(b) for b in scen.random_bytes_memos(r.fork(2), 300 if tier == "thorough" else 80)]
+        s1 += ["pure ics20 " + hx(b) for b in scen.random_bytes_memos(r.fork(3), 100)]
+        s3 = lines + c14_packets(r.fork(4), toks, per)
+        return [Stream("S1-parser-mutations", s1, fields={"pure": ["_"]}, oracle=c14_oracle),
+                Stream("S3-malformed-packets", s3, fields={"recv": ["ack", "src"]}, oracle=c14_oracle)]
